@@ -84,6 +84,7 @@ func (h injectHandler) Enabled(context.Context, slog.Level) bool { return true }
 func (h injectHandler) WithAttrs([]slog.Attr) slog.Handler       { return h }
 func (h injectHandler) WithGroup(string) slog.Handler            { return h }
 func (h injectHandler) Handle(_ context.Context, r slog.Record) error {
+	defer machineOnLog(h.w, r)
 	w := h.w
 	if debugLog {
 		fmt.Fprintf(os.Stderr, "LOG armed=%d %s\n", w.injectIn, r.Message)
@@ -133,6 +134,14 @@ func (w *World) injectWrite() error {
 			w.version--
 			return err
 		}
+		if w.injectComposite {
+			w.closeReader()
+			var a, b, c int
+			if err := w.injConn.QueryRow("PRAGMA wal_checkpoint(PASSIVE)").Scan(&a, &b, &c); err != nil {
+				return err
+			}
+			w.trace = append(w.trace, fmt.Sprintf("INJX-ckpt[%d,%d,%d]", a, b, c))
+		}
 		return nil
 	}
 	if w.injectVersioned { // C02: the injected commit is a version-stamped transaction
@@ -171,6 +180,11 @@ type World struct {
 	useInject bool
 	injectVersioned bool
 	injectOneFrame   bool
+	injectPoint      string
+	pointArmed       bool
+	injectComposite  bool // INJX: after the one-frame commit also end the long reader and run an application PASSIVE checkpoint
+	wtConn           *sql.DB // connection of the open spilled write transaction (ops WT+ / WT- / WTR)
+	wtx              *sql.Tx
 	scripted         bool // explicit op list: no random injection
 	scriptInject     int // script mode: injection point for the next litestream op (0 = none)
 	concurrentWriter bool // C02 thorough tier: a writer goroutine runs concurrently (schedule-dependent)
@@ -647,6 +661,11 @@ func (w *World) appOp(rc *Recorder, op string) error {
 		return err
 	case "AOC":
 		w.closeReader()
+		w.closeWT(false)
+		if w.wtConn != nil {
+			w.wtConn.Close()
+			w.wtConn = nil
+		}
 		w.app.Close()
 		return w.openApp(false)
 	case "LR+":
@@ -669,8 +688,73 @@ func (w *World) appOp(rc *Recorder, op string) error {
 	case "LR-":
 		w.closeReader()
 		return nil
+	case "WT+": // a write transaction left OPEN after it has spilled dirty pages into the WAL (tiny page cache)
+		if w.wtx != nil {
+			return nil
+		}
+		if w.wtConn == nil {
+			db, err := sql.Open("sqlite", "file:"+w.dbPath+"?_pragma=busy_timeout(0)&_pragma=cache_size(2)&_pragma=wal_autocheckpoint(0)")
+			if err != nil {
+				return err
+			}
+			db.SetMaxOpenConns(1)
+			w.wtConn = db
+		}
+		tx, err := w.wtConn.Begin()
+		if err != nil {
+			return err
+		}
+		v := int64(w.version + 1)
+		var qs []string
+		if w.injectVersioned {
+			qs = append(append([]string{}, versionedTx...), "UPDATE big SET ver=?1, pad=randomblob(length(pad))")
+		} else {
+			qs = []string{"UPDATE t SET v=randomblob(length(v))", "UPDATE u SET v=randomblob(length(v))", "INSERT INTO t(v) VALUES (randomblob(3000))", "UPDATE ver SET n=?1"}
+		}
+		for _, q := range qs {
+			var err error
+			if strings.Contains(q, "?1") {
+				_, err = tx.Exec(q, v)
+			} else {
+				_, err = tx.Exec(q)
+			}
+			if err != nil {
+				tx.Rollback()
+				return err
+			}
+		}
+		w.wtx = tx
+		return nil
+	case "WT-": // ... and committed later
+		return w.closeWT(true)
+	case "WTR": // ... or rolled back
+		return w.closeWT(false)
 	}
 	return fmt.Errorf("unknown app op %q", op)
+}
+
+// closeWT ends the open spilled write transaction, if any.
+func (w *World) closeWT(commit bool) error {
+	if w.wtx == nil {
+		return nil
+	}
+	tx := w.wtx
+	w.wtx = nil
+	if !commit {
+		return tx.Rollback()
+	}
+	if err := tx.Commit(); err != nil {
+		return err
+	}
+	w.version++
+	return nil
+}
+
+func (w *World) closeWTConn() {
+	if w.wtConn != nil {
+		w.wtConn.Close()
+		w.wtConn = nil
+	}
 }
 
 func (w *World) closeReader() {
@@ -713,7 +797,7 @@ func (w *World) lsOp(rc *Recorder, op string) error {
 		}
 		return nil
 	case "CK-PASSIVE", "CK-FULL", "CK-RESTART", "CK-TRUNCATE":
-		_ = w.ldb.Checkpoint(ctx, strings.TrimPrefix(op, "CK-"))
+		w.observeCheckpoint(rc, strings.TrimPrefix(op, "CK-"), func() error { return w.ldb.Checkpoint(ctx, strings.TrimPrefix(op, "CK-")) })
 		return nil
 	case "SW":
 		if err := w.ldb.SyncAndWait(ctx); err == nil {
@@ -735,8 +819,17 @@ func (w *World) closeLitestream(rc *Recorder) {
 	defer func() { lastTrace = w.cfg.String() + " | " + strings.Join(w.trace, " ") }()
 	ctx, cancel := context.WithTimeout(ctxb, 60*time.Second)
 	defer cancel()
+	// a DB object whose lazy init never succeeded (e.g. the application held the write lock during
+	// every sync attempt): Close finds db.db == nil and acknowledges without replicating — the same
+	// defect as the close-before-first-sync known finding, reached by a different history
+	neverInit := w.ldb.PageSize() == 0
 	if err := w.ldb.Close(ctx); err == nil {
+		old := w.scenario
+		if neverInit && !strings.Contains(old, "close-before-first-sync") {
+			w.scenario = "close-never-initialised"
+		}
 		w.ackOracle(rc, "Close")
+		w.scenario = old
 	}
 }
 
@@ -879,14 +972,18 @@ func (w *World) observeSync(rc *Recorder, f func() error) {
 
 // ---- history generation ----------------------------------------------------------------------------------------
 
-var appOps = []string{"W", "W", "W", "W", "U", "U", "D", "V", "DDL", "RB", "ACK-PASSIVE", "ACK-FULL", "ACK-RESTART", "ACK-TRUNCATE", "AOC", "LR+", "LR-"}
+func isAppOp(op string) bool {
+	return strings.HasPrefix(op, "ACK") || op == "W" || op == "U" || op == "D" || op == "V" || op == "DDL" || op == "RB" || op == "AOC" || op == "LR+" || op == "LR-" || op == "WT+" || op == "WT-" || op == "WTR"
+}
+
+var appOps = []string{"WT+", "WT-", "WTR", "W", "W", "W", "W", "U", "U", "D", "V", "DDL", "RB", "ACK-PASSIVE", "ACK-FULL", "ACK-RESTART", "ACK-TRUNCATE", "AOC", "LR+", "LR-"}
 var lsOps = []string{"S", "S1", "S1", "S1", "RS", "SW", "SW", "SW", "CK-PASSIVE", "CK-FULL", "CK-RESTART", "CK-TRUNCATE", "SNAP", "CMP"}
 
 func (w *World) step(rc *Recorder, op string) {
 	w.trace = append(w.trace, op)
 	rc.opCounts[strings.SplitN(op, "-", 2)[0]]++
 	var err error
-	if strings.HasPrefix(op, "ACK") || op == "W" || op == "U" || op == "D" || op == "V" || op == "DDL" || op == "RB" || op == "AOC" || op == "LR+" || op == "LR-" {
+	if isAppOp(op) {
 		err = w.appOp(rc, op)
 		if err != nil && (strings.Contains(err.Error(), "locked") || strings.Contains(err.Error(), "busy")) {
 			err = nil
@@ -923,7 +1020,7 @@ func runC01(rc *Recorder, dir string, rng *rand.Rand, steps int) error {
 	if err != nil {
 		return err
 	}
-	defer func() { w.closeReader(); w.app.Close() }()
+	defer func() { w.closeReader(); w.closeWT(false); w.closeWTConn(); w.app.Close() }()
 	w.useInject = rng.Intn(2) == 0
 	w.injectOneFrame = w.useInject && rng.Intn(3) == 0
 	w.ldb = w.newLitestream()
@@ -996,6 +1093,16 @@ var ckptWindowScripts = func() (l [][2]string) {
 				fmt.Sprintf("OPEN S W SW REOPEN W W ACK-PASSIVE OPEN S SW INJ1=%d CK-%s SW S SW", k, mode)})
 		}
 	}
+	// ... and the window after the PRAGMA, before the read lock is re-acquired: an appended commit
+	// (an application reader blocks the restart), the reader ends, an application checkpoint
+	// backfills it; the bump then restarts the WAL over it (Db/Machine.v
+	// full_checkpoint_post_pragma_window_refuted; fixed in /repo)
+	for _, mode := range []string{"FULL", "RESTART"} {
+		for _, k := range []int{4, 5, 6} {
+			l = append(l, [2]string{"ckpt-post-pragma-window:" + mode,
+				fmt.Sprintf("OPEN S W W SW LR+ INJX=%d CK-%s SW", k, mode)})
+		}
+	}
 	return l
 }()
 
@@ -1008,7 +1115,7 @@ func runScriptAs(rc *Recorder, dir string, rng *rand.Rand, script, cfgs, scenari
 	if err != nil {
 		return err
 	}
-	defer func() { w.closeReader(); w.app.Close() }()
+	defer func() { w.closeReader(); w.closeWT(false); w.closeWTConn(); w.app.Close() }()
 	w.scenario = scenario
 	w.scripted = true
 	w.useInject = true
@@ -1033,6 +1140,8 @@ func runScriptAs(rc *Recorder, dir string, rng *rand.Rand, script, cfgs, scenari
 		}
 	}
 	nextInject := 0
+	nextPoint := false
+	defer func() { litestream.VerifTracePoint = nil }()
 	for _, op := range toks {
 		switch {
 		case op == "CLOSE":
@@ -1048,6 +1157,29 @@ func runScriptAs(rc *Recorder, dir string, rng *rand.Rand, script, cfgs, scenari
 				w.ldb = nil
 			}
 			continue
+		case strings.HasPrefix(op, "INJP="): // composite injection (as INJX) at a verifTrace point of the NEXT litestream op, e.g. INJP=pt.ckpt.bump
+			w.injectPoint = strings.TrimPrefix(op, "INJP=")
+			w.injectOneFrame, w.injectComposite = true, true
+			litestream.VerifTracePoint = func(_ any, ev string) {
+				if ev != w.injectPoint || w.injecting || !w.pointArmed {
+					return
+				}
+				w.pointArmed = false
+				w.injecting = true
+				err := w.injectWrite()
+				w.injecting = false
+				res := "ok"
+				if err != nil {
+					res = "busy"
+				}
+				w.trace = append(w.trace, fmt.Sprintf("INJ@%s:%s", ev, res))
+			}
+			nextPoint = true
+			continue
+		case strings.HasPrefix(op, "INJX="): // at the k-th log record: one-frame commit, end the application's long reader, application PASSIVE checkpoint
+			fmt.Sscanf(op, "INJX=%d", &nextInject)
+			w.injectOneFrame, w.injectComposite = true, true
+			continue
 		case strings.HasPrefix(op, "INJ1="): // same, but the injected transaction writes a single WAL frame
 			fmt.Sscanf(op, "INJ1=%d", &nextInject)
 			w.injectOneFrame = true
@@ -1059,12 +1191,17 @@ func runScriptAs(rc *Recorder, dir string, rng *rand.Rand, script, cfgs, scenari
 		if op == "CLOSE" {
 			break
 		}
-		if w.ldb == nil && !(strings.HasPrefix(op, "ACK") || op == "W" || op == "U" || op == "D" || op == "V" || op == "DDL" || op == "RB" || op == "AOC" || op == "LR+" || op == "LR-") {
+		if w.ldb == nil && !isAppOp(op) {
 			return fmt.Errorf("litestream op %s before OPEN", op)
 		}
 		w.scriptInject = nextInject
 		nextInject = 0
+		w.pointArmed = nextPoint && !isAppOp(op)
+		if w.pointArmed {
+			nextPoint = false
+		}
 		w.step(rc, op)
+		w.pointArmed = false
 	}
 	if w.ldb == nil {
 		return nil
@@ -1082,7 +1219,7 @@ func runCloseBeforeFirstSync(rc *Recorder, dir string, rng *rand.Rand) error {
 	if err != nil {
 		return err
 	}
-	defer func() { w.closeReader(); w.app.Close() }()
+	defer func() { w.closeReader(); w.closeWT(false); w.closeWTConn(); w.app.Close() }()
 	w.ldb = w.newLitestream()
 	if err := w.ldb.Open(); err != nil {
 		return err
